@@ -125,6 +125,10 @@ pub fn judge(t: &Tree, hunk: usize, sets: &[Vec<String>], scratch: &Scratch, n: 
     v
 }
 
+pub fn cli_route(scratch: &Scratch) -> Vec<(Violation, Value)> {
+    crate::cli::c15(scratch, &|set: &[String], key: &str| omitted(set, key), &PATTERNS)
+}
+
 pub fn pattern_sets() -> Vec<Vec<String>> {
     let pats: Vec<String> = PATTERNS.iter().map(|s| s.to_string()).collect();
     gen::subsets_upto(&pats, 2)
